@@ -457,6 +457,19 @@ func smallCell(c *core.Ctx, label string, depth int) *ref.RCell {
 	return ref.NewRCell(ref.Bits(c.Bits(label+".data", n)), false, refs...)
 }
 
+// tongoCell: ordinary trees are built through the construction API, a tree with an exotic cell has to come
+// out of a bag of cells (written by the reference serialiser).
+func tongoCell(r *ref.RCell) (*boc.Cell, error) {
+	if !r.Special {
+		return gen.ToTongo(r, true, 100)
+	}
+	roots, err := boc.DeserializeBoc(ref.SerializeBOC([]*ref.RCell{r}, ref.BocVariant{}))
+	if err != nil {
+		return nil, fmt.Errorf("HARNESS: %v", err)
+	}
+	return roots[0], nil
+}
+
 var messageCheck = &core.Check{Name: "c04/message", Quick: 4000, Thorough: 300000, Fn: func(c *core.Ctx) error {
 	var rm tlbref.Message
 	var tm tlb.Message
@@ -522,12 +535,27 @@ var messageCheck = &core.Check{Name: "c04/message", Quick: 4000, Thorough: 30000
 		}
 		if c.Bool("code") {
 			si.Code = smallCell(c, "code", 1)
-			tc, _ := gen.ToTongo(si.Code, true, 100)
+			if c.Intn("code.library", 4) == 0 {
+				// code kept in a library: the reference holds a library cell (exotic, type 2, hash of the code)
+				si.Code = ref.NewRCell(ref.Bits{}.AppendUint(2, 8).AppendBytes(c.Content("code.libhash", 32)), true)
+				c.Class("state-init code is a library cell")
+			}
+			tc, err := tongoCell(si.Code)
+			if err != nil {
+				return err
+			}
 			ti.Code.Exists, ti.Code.Value.Value = true, *tc
 		}
 		if c.Bool("data") {
 			si.Data = smallCell(c, "data", 1)
-			tc, _ := gen.ToTongo(si.Data, true, 100)
+			if c.Intn("data.library", 8) == 0 {
+				si.Data = ref.NewRCell(ref.Bits{}.AppendUint(2, 8).AppendBytes(c.Content("data.libhash", 32)), true)
+				c.Class("state-init data is a library cell")
+			}
+			tc, err := tongoCell(si.Data)
+			if err != nil {
+				return err
+			}
 			ti.Data.Exists, ti.Data.Value.Value = true, *tc
 		}
 		rm.Init, rm.InitInRef = &si, c.Bool("initref")
@@ -849,4 +877,6 @@ func TestReal(t *testing.T) {
 	}
 }
 
-func TestReplay(t *testing.T) { core.Replay(t, intCheck, comboCheck, tagCheck, messageCheck, realCheck, arrayCheck) }
+func TestReplay(t *testing.T) {
+	core.Replay(t, intCheck, comboCheck, tagCheck, messageCheck, realCheck, arrayCheck)
+}
